@@ -200,3 +200,21 @@ Definition c10_x86_case (i r : sexp) : verdict :=
   | _ => VBad "input shape"
   end.
 Definition run_c10_x86 : string -> string := run_cases c10_x86_case.
+
+(* ---------- replay / inspection: observations of both machines on each argument tuple ---------- *)
+Definition show_x86_case (i r : sexp) : verdict :=
+  match i with
+  | L [Q _; p; lc; argss] =>
+      match g_prog p, getL (getL getZ) argss, r with
+      | Some p, Some argss, L [cs; _] =>
+          match g_xcodes cs with
+          | Some cs =>
+              VOk (show (L (map (fun args => L [sL sZ args; s_obs (run_linear lin_fuel p args);
+                                                s_obs (fst (run_x86 x86_outer x86_inner cs args))]) argss)))
+          | None => VBad "rust output unreadable"
+          end
+      | _, _, _ => VBad "input unreadable"
+      end
+  | _ => VBad "input shape"
+  end.
+Definition run_show_x86 : string -> string := run_cases show_x86_case.
